@@ -29,6 +29,15 @@ EDITS = [
   "    cur = _task_state_values[current]\n    tgt = _task_state_values[target]\n\n    if cur >= tgt:",
   "    cur = _task_state_values[current]\n    tgt = _task_state_values[target]\n\n    if cur > tgt + 1:",
   '_task_state_progress'),
+ ('pilot-cb-all-tasks', 'C13', 'task_manager.py',
+  "                    if task.pilot != pid:\n                        continue\n",
+  "", '_pilot_state_cb'),
+ ('update-canceled-overwrite', 'C06', 'task.py',
+  "            if key == 'state':\n",
+  "            if key == 'state' and False:\n", 'Task._update'),
+ ('progress-raise', 'C06', 'states.py',
+  "            # final states are final: silently discard the invalid target\n            return [current, []]",
+  "            raise ValueError('invalid transition')", 'no-ValueError'),
 ]
 
 
